@@ -185,6 +185,7 @@ func (instr *InstrActions) Len() (n uint16) {
 }
 
 func (instr *InstrActions) MarshalBinary() (data []byte, err error) {
+	instr.Length = instr.Len() // an action may have grown since AddAction
 	data, err = instr.InstrHeader.MarshalBinary()
 
 	b := make([]byte, 4)
